@@ -49,6 +49,14 @@ CLAIMED = {
              "crash before each of its mutating calls with marks kept or individually lost (the exemption for lost marks is computed by the crash model, not by the harness).",
         note="as C03",
         design="5 C04"),
+    "C07": dict(
+        technique="TLA+ monitor over transactions (acknowledgements vs. what the queue program received) + transcription of the qmail_fail/qmail_close discipline of the three daemons checked by TLC for every combination + TLC validation of real qmail-smtpd/qmail-qmtpd/qmail-qmqpd transactions with a recording QMAILQUEUE stand-in (all exit statuses, limits, bad addresses, every cut point)",
+        text="Ingest.tla demands: a positive acknowledgement iff the queue program saw the envelope terminator and exited 0 having received exactly Received-field + decoded body and the acknowledged "
+             "envelope; size/hop/address refusals permanent and nothing queued; queue exit codes classed as qmail-queue(8) documents; a Received field made of safe bytes only. IngestModel.tla checks "
+             "the transcribed daemons for every combination. The real daemons are run over every exit status 0..255, custom texts, death by signal, bodies around databytes, 98..101 hop fields, "
+             "over-long/NUL/policy-refused addresses, hostile peer strings and every cut point of small transactions; TLC judges every record.",
+        note="'queued' = the stand-in saw the terminator and exited 0; exit codes 100..255 and 115 only required to give a negative reply",
+        design="5 C07"),
     "C08": dict(
         technique="TLA+ transcription of qmail-smtpd's session logic checked by TLC against a reply-driven transaction/relay-policy monitor for every command sequence up to a bound x configurations + TLC validation of tens of thousands of real interactive and pipelined qmail-smtpd sessions",
         text="SmtpSession.tla states the property over (command, reply class, envelope submitted) with abstract addresses and configurations; SmtpModel.tla checks the transcribed "
@@ -127,6 +135,14 @@ CLAIMED = {
              "(every open path, every report, every started delivery agent) are driven over enumerated and random hostile streams and each record is judged by TLC.",
         note="part 3 (hostile bytes on qmail-send's report channels) is covered once the daemon controller exists; shim trace assumed complete for unlink/open/write",
         design="5 C18"),
+    "C19": dict(
+        technique="TLA+ reference model of RFC 1939 as qualified by qmail-pop3d(8)/qmail-popup(8) with three program-layer machines (blast loop, pop3d sessions, popup) checked by TLC + TLC validation of 12k real qmail-pop3d/qmail-popup sessions on generated maildirs",
+        text="Pop3.tla is the reference model (stepwise monitors over command, reply class, payload bytes, descriptor-3 bytes, maildir before/after); Pop3Impl.tla transcribes scan_ulong/msgno/top/blast/"
+             "prioq/getlist and drives Pop3Blast (every message over {LF,CR,'.',x} up to length 6/8 x RETR/TOP), Pop3d (every command sequence of any length over verbs x 22 argument texts x 4 maildirs "
+             "x vanishing files) and Pop3Popup in lock step with the reference model, with branch witnesses required. The real qmail-pop3d runs as an unprivileged uid command by command (files removed "
+             "between commands), qmail-popup with a stand-in checker; every session is a record judged by TLC.",
+        note="any consistent numbering accepted (order not in the statement); STAT's count free; as-found scan_ulong transcription (ScanWraps) kept and required to fail",
+        design="5 C19"),
 }
 
 NOT_YET = "check not built yet in this round (work in progress, see DESIGN.md section 11)"
